@@ -332,11 +332,125 @@ def check_groups(acc):
             core.unload_source(ns)
 
 
+# ---------------------------------------------------------------------------------------------------------------
+# the decorated callable is itself a decorator which adapts the arguments for the function beneath it and declares its own
+# parameters with __signature__ (functools.wraps alone would make inspect report the parameters of the inner function)
+
+ADAPTER_SRC = '''\
+import functools
+import inspect
+import icontract
+LOG = []
+class Obj:
+    def __init__(self, tag): self.tag = tag
+    def __repr__(self): return "<" + self.tag + ">"
+DEFAULT = Obj("DEFAULT")
+SESSION = Obj("SESSION")
+def c_timeout(timeout):
+    LOG.append(("pre", "timeout", id(timeout)))
+    return True
+def q_timeout(timeout, result):
+    LOG.append(("post", "timeout", id(timeout)))
+    return True
+def c_x(x):
+    LOG.append(("pre", "x", id(x)))
+    return True
+def c_session(session):
+    LOG.append(("pre", "session", id(session)))
+    return True
+def with_default_timeout(func):
+    @functools.wraps(func)
+    def wrapper(url, timeout=DEFAULT):
+        return func(url, timeout)
+    wrapper.__signature__ = inspect.signature(wrapper, follow_wrapped=False)
+    return wrapper
+def with_session(func):
+    @functools.wraps(func)
+    def wrapper(x, **kwargs):
+        return func(SESSION, x, **kwargs)
+    wrapper.__signature__ = inspect.signature(wrapper, follow_wrapped=False)
+    return wrapper
+def renamed(func):
+    @functools.wraps(func)
+    def wrapper(x, limit=DEFAULT):
+        return func(x, timeout=limit)
+    wrapper.__signature__ = inspect.signature(wrapper, follow_wrapped=False)
+    return wrapper
+@icontract.require(c_timeout)
+@icontract.ensure(q_timeout)
+@with_default_timeout
+def fetch(url, timeout):
+    LOG.append(("body", id(timeout)))
+    return 1
+@icontract.require(c_x)
+@with_session
+def query(session, x, **kwargs):
+    LOG.append(("body", id(x)))
+    return 1
+@icontract.require(c_session)
+@with_session
+def query_asking_for_the_inner_name(session, x, **kwargs):
+    LOG.append(("body", id(x)))
+    return 1
+@icontract.require(c_x)
+@renamed
+def limited(x, timeout):
+    LOG.append(("body", id(x)))
+    return 1
+'''
+
+
+def check_adapters(acc):
+    ns = core.load_source(ADAPTER_SRC, "c05a")
+    try:
+        Obj = ns["Obj"]
+        u, t, x = Obj("U"), Obj("T"), Obj("X")
+        cases = [
+            ("default_supplied_by_the_adapter", lambda: ns["fetch"](u), [("pre", "timeout", id(ns["DEFAULT"])), ("body", id(ns["DEFAULT"])), ("post", "timeout", id(ns["DEFAULT"]))], None),
+            ("default_overridden_positionally", lambda: ns["fetch"](u, t), [("pre", "timeout", id(t)), ("body", id(t)), ("post", "timeout", id(t))], None),
+            ("default_overridden_by_keyword", lambda: ns["fetch"](u, timeout=t), [("pre", "timeout", id(t)), ("body", id(t)), ("post", "timeout", id(t))], None),
+            ("argument_injected_by_the_adapter", lambda: ns["query"](x), [("pre", "x", id(x)), ("body", id(x))], None),
+            ("argument_injected_keyword_call", lambda: ns["query"](x=x), [("pre", "x", id(x)), ("body", id(x))], None),
+            ("keyword_renamed_by_the_adapter", lambda: ns["limited"](x, limit=t), [("pre", "x", id(x)), ("body", id(x))], None),
+            # the condition asks for a name the call (as the decorated callable takes it) does not provide: TypeError naming it
+            ("inner_name_not_provided_by_the_call", lambda: ns["query_asking_for_the_inner_name"](x), [], "session"),
+        ]
+        for label, thunk, want, missing in cases:
+            del ns["LOG"][:]
+            exc = None
+            try:
+                core.fresh_ctx_run(thunk)
+            except Exception as e:
+                exc = e
+            log = list(ns["LOG"])
+            acc.case(("adapter", label), True, len(log), type(exc).__name__ if exc else "ret")
+            bad = None
+            if missing is not None:
+                if not isinstance(exc, TypeError) or missing not in str(exc):
+                    bad = ("missing_name_not_reported", "expected TypeError naming {!r}, got {!r}; log {}".format(missing, exc, log))
+                elif log:
+                    bad = ("evaluated_despite_missing_name", "log={}".format(log))
+            elif exc is not None:
+                bad = ("missing_or_extra_evaluations", "a call the decorated callable can bind failed with {!r}".format(exc))
+            elif log != want:
+                bad = ("condition_saw_wrong_value", "expected events {} got {}".format(want, log))
+            if bad:
+                acc.violation(core.Violation(PROP, bad[0], {"family": "adapter", "case": label, "unknown": None, "surplus_positional": False},
+                                             "contracts above a decorator which adapts the arguments and declares its parameters ({}): {}".format(label, bad[1]),
+                                             spec={"adapters": True}, script=ADAPTER_SRC))
+        acc.sample({"family": "adapter", "cases": [c[0] for c in cases]}, cap=1)
+    finally:
+        core.unload_source(ns)
+
+
 def work(chunk):
     acc = core.Acc()
     for item in chunk:
         if item == "groups":
             check_groups(acc)
+            continue
+        if item == "adapters":
+            check_adapters(acc)
             continue
         s, unknown, cdef = item
         check_sig(s, acc, unknown, cdef)
@@ -365,7 +479,7 @@ def items(tier):
 
 def run(tier, t0):
     it = core.rotate(items(tier))
-    tot = core.merge(core.pmap(work, list(it) + ["groups"]))
+    tot = core.merge(core.pmap(work, list(it) + ["groups", "adapters"]))
     return core.finish(
         PROP, tier, tot, t0,
         rule="every signature with <=2 positional-only, <=2 positional-or-keyword, optional *args, <=2 keyword-only, optional "
@@ -374,9 +488,11 @@ def run(tier, t0):
              "parameters plus one extra key (also an extra key equal to a positional-only name); each call run with the final "
              "postcondition true and false (error factory), once with plain contract callables and once with contract callables "
              "whose parameters carry (wrong) defaults; plus variants with a condition asking for a name the call does not "
-             "provide. Oracle: object identity with what the bare spy function receives. non-trivial = the call passes at least one "
+             "provide (also the name of *args / **kwargs itself), calls whose every argument is None, a hierarchy with two precondition groups reading "
+             "_ARGS/_KWARGS, and 7 calls of contracted callables which are themselves argument-adapting decorators declaring their own "
+             "__signature__ (default supplied / argument injected / keyword renamed by the adapter). Oracle: object identity with what the bare spy function receives. non-trivial = the call passes at least one "
              "argument or the signature has a named parameter".format(3 if tier == "quick" else 4),
-        assumptions=["variadic parameter *names* (args, kwargs) are outside the statement and not judged",
+        assumptions=["a condition naming *args / **kwargs itself must end in a TypeError (KF-C05-1 for the first surplus positional)",
                      "only calls that Python itself accepts are explored"],
         bounds={"signature_programs": len(it), "max_named": 3 if tier == "quick" else 4},
     )
@@ -387,6 +503,8 @@ def replay(path):
     acc = core.Acc()
     if data.get("groups"):
         check_groups(acc)
+    elif data.get("adapters"):
+        check_adapters(acc)
     else:
         check_sig(data["sig"], acc, data.get("unknown"), data.get("cdef", False))
     for v in acc.violations[:5]:
